@@ -547,6 +547,70 @@ def witver(ctx):
                     'the witness version is passed as `%s`, which does not instantiate the OP_n element of the template' % k, calls[0])
 
 
+@PROP.obligation('C05.script-built', canaries=[
+    mut.replace_expr('scripts', 'Script.__init__', 'sig_n_and_m.pop() + 80', 'sig_n_and_m.pop() + 81', 'OP_n of a built script off by one'),
+    mut.replace_expr('transactions', 'Output.__init__', "self.witver if self.script_type == 'p2tr' else None", "None", 'witness version not handed to the script constructor'),
+    mut.replace_expr('scripts', 'Script.__init__', 'sigs_required if sigs_required else len(self.keys) if len(self.keys) else 1',
+                     'min(sigs_required, max(len(self.keys), 1)) if sigs_required else len(self.keys) if len(self.keys) else 1',
+                     'sigs_required clamped to the number of keys (the slot carries the witness version)'),
+])
+def script_built(ctx):
+    """The Script(...) construction in Output.__init__ evaluated end to end: its keyword arguments are evaluated for an output that holds
+    a 20- or 32-byte hash, no public key and script type p2pkh / p2sh / p2wpkh / p2wsh / p2tr with witness version 1..16, and
+    Script.__init__ is run on them. The command list must be the standard locking script for every one of the 20 destinations, and the
+    constructor must not refuse any of them."""
+    qo = 'transactions:Output.__init__'
+    out = ctx.repo.func(qo)
+    calls = [c for c in ast.walk(out) if isinstance(c, ast.Call) and unparse(c.func) == 'Script' and any(k.arg == 'script_types' for k in c.keywords)]
+    if len(calls) != 1 or calls[0].args:
+        ctx.undecided('Output.__init__: %d Script(script_types=...) constructions with keyword arguments only, expected 1' % len(calls))
+    q = 'scripts:Script.__init__'
+    fn = ctx.repo.func(q)
+    a = fn.args
+    names = [x.arg for x in a.args]
+    defaults = {}
+    for n_, d in zip(names[len(names) - len(a.defaults):], a.defaults):
+        try:
+            defaults[n_] = ast.literal_eval(d)
+        except Exception:
+            defaults[n_] = S(('var', n_))
+    H20, H32 = b'\x11' * 20, b'\x22' * 32
+    cases = [('p2pkh', H20, 0, [0x76, 0xa9, H20, 0x88, 0xac]), ('p2sh', H20, 0, [0xa9, H20, 0x87]), ('p2wpkh', H20, 0, [0, H20]), ('p2wsh', H32, 0, [0, H32])]
+    cases += [('p2tr', H32, v, [0x50 + v, H32]) for v in range(1, 17)]
+    n = 0
+    for stype, h, wv, want in cases:
+        what = '%s%s' % (stype, ' witness version %d' % wv if stype == 'p2tr' else '')
+        oi = Interp(ctx.repo, 'transactions')
+        st = State(env={'self': S(SELF)}, heap={A(SELF, 'script_type'): stype, A(SELF, 'public_hash'): h, A(SELF, 'public_key'): b'', A(SELF, 'witver'): wv})
+        args = dict(defaults)
+        args['self'] = S(('var', 'script'))
+        try:
+            for k in calls[0].keywords:
+                if k.arg is None:
+                    ctx.undecided('Output.__init__: Script(**...) not evaluable')
+                args[k.arg] = oi.eval(k.value, st)
+            it = Interp(ctx.repo, 'scripts', self_cls='scripts:Script')
+            exits = it.run_function(fn, args)
+        except AnalysisError as e:
+            ctx.undecided('Script(...) for a %s output not evaluable: %s' % (what, str(e)[:100]))
+        if any(e.pc for e in exits):
+            ctx.undecided('Script(...) for a %s output: outcome depends on %s' % (what, [show(t)[:60] for e in exits for t, _ in e.pc][:3]))
+        rets = [e for e in exits if e.kind == 'return']
+        n += 1
+        if not rets:
+            r = [e for e in exits if e.kind == 'raise']
+            ctx.violate(q, 'the constructor refuses the arguments Output.__init__ hands over for a %s destination (%s)' % (what, ', '.join('%s=%s' % (k.arg, show(term(args[k.arg]))[:24]) for k in calls[0].keywords)),
+                        (r[0].node if r else None) or fn, 'no output can be built for a standard address of that kind, while a script of that form is still reported with the address: the two directions are no longer inverse')
+            continue
+        got = term(rets[0].heap.get(A(('var', 'script'), 'commands')))
+        got = list(got[1:]) if isinstance(got, tuple) and got and got[0] == 'list' else got
+        got = [term(x) for x in got] if isinstance(got, list) else got
+        ctx.saw('%s -> commands %s' % (what, show(got)[:80]))
+        ctx.require(got == want, q, 'an output to a %s destination is built with the commands %s, the standard script is %s' % (what, show(got)[:120], show(want)[:120]), fn,
+                    'funds are locked to another script than the one the address stands for')
+    ctx.floor(n, 20, 'destinations')
+
+
 @PROP.obligation('C05.hash-defaults', canaries=[
     mut.replace_stmt('transactions', 'Output.__init__', "self.script_type = 'p2pkh'", "self.script_type = 'p2pkh' if self.witness_type == 'legacy' else 'p2wpkh'", 'script type of a bare hash follows the witness type argument instead of the encoding'),
 ])
